@@ -781,6 +781,12 @@ func (e *Engine) doCall(fr *frame, ci *cInstr, c *ssa.CallCommon) Val {
 		if recv.t == nil {
 			panic(&goPanic{msg: "runtime error: invalid memory address or nil pointer dereference (nil interface method call " + c.Method.Name() + ")"})
 		}
+		if recv.t == sentinelType {
+			if c.Method.Name() == "Error" {
+				return recv.v
+			}
+			e.unsupported("method %s on opaque error value", c.Method.Name())
+		}
 		f := e.lookupMethod(recv.t, c.Method)
 		if f == nil {
 			e.unsupported("no method %s on %s", c.Method.Name(), recv.t)
